@@ -53,7 +53,25 @@ def make_traj(md, rng, n_frames, n_atoms, force_ortho=None):
     for i in range(n_atoms):
         top.add_atom("C%d" % i, md.element.carbon, r)
     kinds, vecs = [], []
-    for _ in range(n_frames):
+    derived = rng.random() < 0.4       # later frames differ from the previous one in a single box component (or not at all)
+    for f in range(n_frames):
+        if derived and f > 0:
+            v = vecs[-1].copy()
+            which = rng.choice(["same", "cz", "by", "cy", "cx", "bx", "ax"])
+            if which == "cz":
+                v[2, 2] = round(float(v[2, 2]) * rng.choice([1.0625, 1.125]) * 32) / 32
+            elif which == "by":
+                v[1, 1] = round(float(v[1, 1]) * rng.choice([1.0625, 1.125]) * 32) / 32
+            elif which == "ax":
+                v[0, 0] = round(float(v[0, 0]) * rng.choice([1.0625, 1.125]) * 32) / 32
+            elif which == "cy" and kinds[-1] not in ("cubic", "ortho"):
+                v[2, 1] = v[2, 1] + rng.choice([-1, 1]) / 16
+            elif which == "cx" and kinds[-1] not in ("cubic", "ortho"):
+                v[2, 0] = v[2, 0] + rng.choice([-1, 1]) / 16
+            elif which == "bx" and kinds[-1] not in ("cubic", "ortho"):
+                v[1, 0] = v[1, 0] + rng.choice([-1, 1]) / 16
+            kinds.append(kinds[-1]); vecs.append(v)
+            continue
         while True:
             k, v = cells(rng)
             is_ortho = k in ("cubic", "ortho")
